@@ -199,8 +199,22 @@ func c13ModelOps(m *openfgav1.AuthorizationModel, _ *openfgav1.AuthorizationMode
 		}
 		return "OK:" + wgDump(wg)
 	})
+	// one builder value for the whole process, used by every history step and by all goroutines: what it built before
+	// (other models, models with the same id) is history, not an argument
+	safe("WeightedBuild(process-wide builder)", func() string {
+		wg, err := c13SharedBuilder.Build(m)
+		if err != nil {
+			return "ERR"
+		}
+		return "OK:" + wgDump(wg)
+	})
+	if a, b := out.res["WeightedBuild"], out.res["WeightedBuild(process-wide builder)"]; a != b && out.purity == "" {
+		out.purity = fmt.Sprintf("a builder value that built other models before gives a different result than a fresh builder: fresh %.200q, reused %.200q", a, b)
+	}
 	return out
 }
+
+var c13SharedBuilder = graph.NewWeightedAuthorizationModelGraphBuilder()
 
 func c13Compare(base, now map[string]string) string {
 	var ks []string
@@ -514,10 +528,17 @@ func c13DrawDoc(rt *rapid.T, corp *gen.Corpus) c13Doc {
 	case 9:
 		return c13Doc{Kind: "modfile", Text: c15GenManifest(rt).Text}
 	case 10:
-		ms := gen.Modules(rt, gen.ModOpts{MaxConflicts: 1, MaxFiles: 3})
+		ms := gen.Modules(rt, gen.ModOpts{MaxConflicts: 1, MaxFiles: 3, Layout: true})
 		d := c13Doc{Kind: "merge", Text: ms.Files[0].Text}
 		for _, f := range ms.Files[1:] {
 			d.More = append(d.More, f.Text)
+		}
+		if rapid.IntRange(0, 3).Draw(rt, "crlfFiles") == 0 {
+			// Windows line ends in every file (the caller's slice must come back as it went in)
+			d.Text = strings.ReplaceAll(strings.ReplaceAll(d.Text, "\r\n", "\n"), "\n", "\r\n")
+			for i := range d.More {
+				d.More[i] = strings.ReplaceAll(strings.ReplaceAll(d.More[i], "\r\n", "\n"), "\n", "\r\n")
+			}
 		}
 		return d
 	case 11:
@@ -536,6 +557,12 @@ func c13DrawDoc(rt *rapid.T, corp *gen.Corpus) c13Doc {
 		d := c13Doc{Kind: "merge", Text: pick()}
 		for i, n := 0, rapid.IntRange(0, 2).Draw(rt, "moreFiles"); i < n; i++ {
 			d.More = append(d.More, pick())
+		}
+		if rapid.IntRange(0, 3).Draw(rt, "crlfFiles") == 0 {
+			d.Text = strings.ReplaceAll(strings.ReplaceAll(d.Text, "\r\n", "\n"), "\n", "\r\n")
+			for i := range d.More {
+				d.More[i] = strings.ReplaceAll(strings.ReplaceAll(d.More[i], "\r\n", "\n"), "\n", "\r\n")
+			}
 		}
 		return d
 	default:
